@@ -19,6 +19,212 @@ let parse_gv s = match String.split_on_char '.' s with
   | _ -> None
 let round_primary n = 5 mod n   (* s.state.round = 5 in the harness *)
 
+
+(* ------------------------------------------------------------------------------------------
+   multi-round mode (input keyword w): every honest voter runs through several rounds with the
+   real Service.initiateRound.  Per voter the C21 mirror is replayed round by round (model_eq),
+   including determine_prevote; the votes cast per round are collected and, at the end,
+     - all blocks finalised by all voters in all rounds must be on one chain when the Byzantine
+       voters are within the tolerance (prop_ok, the conclusion of C22_safety);
+     - the guard later_below (C22/ModelImpl.v: some honest vote of a later round does not descend
+       from a block that has > 2/3 of the precommits cast in an earlier round) classifies a
+       conflict as the recorded finding round-advance-ignores-estimate;
+     - the premise follows_previous of Model.step is evaluated on the voter's own last view of
+       the previous round and only TAGGED (lib/grandpa does not implement it).
+   ------------------------------------------------------------------------------------------ *)
+let c22_round = 5
+(* what the vm_compute cross-check re-evaluates: tree, voters, honest voters, votes cast, guard *)
+let last_multi : (nat list * int * int * vote list list * vote list list * bool) option ref = ref None
+
+let check_multi ps nv nb bests ops obs =
+  let t = List.map nat_of_hex (list_of ps) in
+  let n = int_of_string ("0x" ^ nv) and nbyz = int_of_string ("0x" ^ nb) in
+  let nh = n - nbyz in
+  let bests = Array.of_list (List.map (fun part -> Array.of_list (List.map nat_of_hex (list_of part)))
+                               (String.split_on_char ';' bests)) in
+  let ridx = Array.make nh 0 in
+  let st = Array.init nh (fun _ -> { s_pv = []; s_pc = []; s_pv_eq = []; s_pc_eq = []; s_head = O }) in
+  (* the voter's best block is re-evaluated when it enters a round and when it finalises: the
+     preferred block of that round if it descends from the voter's finalised head, else that head *)
+  let best_of i =
+    let r = min ridx.(i) (Array.length bests - 1) in
+    let want = bests.(r).(i) in
+    let head = st.(i).s_head in
+    if ancb t head want then want else head in
+  let best_eff = Array.init nh best_of in
+  let env i =
+    { e_tree = t; e_voters = nat_of_int n; e_best = best_eff.(i); e_next_change = None; e_self = nat_of_int i } in
+  let pool = ref [||] in
+  let push m = pool := Array.append !pool [| Some m |] in
+  let push_empty () = pool := Array.append !pool [| None |] in
+  let maxr = 16 in
+  let pvs = Array.make maxr [] and pcs = Array.make maxr [] in
+  let cast sg r v b =
+    if r < maxr then begin
+      let x = { vvoter = v; vblock = b; vsig = O } in
+      if sg = Precommit then pcs.(r) <- x :: pcs.(r) else pvs.(r) <- x :: pvs.(r)
+    end in
+  let prevoted = Array.make nh false and precommitted = Array.make nh false and fin = Array.make nh false in
+  let prev_view = Array.make nh None in
+  let ops = list_of ops and obs_l = list_of obs in
+  if List.length ops <> List.length obs_l then
+    { prop_ok = false; model_eq = false; nontrivial = false; finding = "-"; tags = "shape"; detail = "observed " ^ obs }
+  else begin
+    let prop = ref true and eq = ref true and detail = ref "" and finding = ref "-" in
+    let tags = Hashtbl.create 16 in
+    let tag s = Hashtbl.replace tags s () in
+    tag "multi-round";
+    let fail_prop msg = prop := false; if !detail = "" then detail := msg in
+    let fail_eq msg = eq := false; if !detail = "" then detail := msg in
+    let diverged = ref false in
+    let finalised = ref [] in
+    let tolerated = nbyz <= (n - 1) / 3 in
+    if not tolerated then tag "byz-over-tolerance";
+    let det i = not (hash_conflict st.(i) Prevote) && no_tie (prevote_candidates (env i) st.(i))
+                && not (hash_conflict st.(i) Precommit) in
+    let premise i g what =
+      match prev_view.(i) with
+      | None -> ()
+      | Some (v, c) ->
+        if follows_view t (unit_ws (env i)) v c g.gv_block then tag (what ^ "-follows-estimate")
+        else tag (what ^ "-ignores-estimate") in
+    List.iteri (fun idx (op, ob) ->
+      if not !diverged then begin
+      let rest = String.sub op 1 (String.length op - 1) in
+      match op.[0] with
+      | 'v' ->
+        let i = int_of_string ("0x" ^ rest) in
+        if prevoted.(i) then begin push_empty (); if ob <> "dup" then fail_eq (Printf.sprintf "op %d %s: go=%s model=dup" idx op ob) end
+        else begin
+          let e = env i in
+          let primary = nat_of_int ((c22_round + ridx.(i)) mod n) in
+          let expect = (match determine_prevote e st.(i) primary with
+            | Ok g -> gv_str g | Err c -> Printf.sprintf "e%x" (int_of_nat c) | _ -> "panic") in
+          if ob <> expect then fail_eq (Printf.sprintf "op %d %s: go=%s model=%s" idx op ob expect);
+          (match parse_gv ob with
+           | Some g ->
+             if not (known e g.gv_block) then fail_prop (Printf.sprintf "op %d %s: prevote for an unknown block" idx op);
+             premise i g "prevote";
+             st.(i) <- store_own e st.(i) Prevote g; prevoted.(i) <- true;
+             push (nat_of_int i, Prevote, g, ridx.(i)); cast Prevote ridx.(i) (nat_of_int i) g.gv_block;
+             tag "prevote"
+           | None -> push_empty (); diverged := true)
+        end
+      | 'c' ->
+        let i = int_of_string ("0x" ^ rest) in
+        if precommitted.(i) then begin push_empty (); if ob <> "dup" then fail_eq (Printf.sprintf "op %d %s: go=%s model=dup" idx op ob) end
+        else begin
+          let e = env i in
+          let expect = (match prevoted_block e st.(i) with
+            | Ok pvb ->
+              if N.leb (total_votes e st.(i) Prevote pvb.gv_block) (threshold0 e) then "wait"
+              else (match determine_precommit true e st.(i) with
+                    | Ok g -> gv_str g | Err c -> Printf.sprintf "e%x" (int_of_nat c) | _ -> "panic")
+            | Err c -> Printf.sprintf "e%x" (int_of_nat c)
+            | _ -> "panic") in
+          let d = det i in
+          if d then (if ob <> expect then fail_eq (Printf.sprintf "op %d %s: go=%s model=%s" idx op ob expect))
+          else tag "order-dependent";
+          (match parse_gv ob with
+           | Some g ->
+             if not (known e g.gv_block && spec_supermajority e st.(i) Prevote g.gv_block) then
+               fail_prop (Printf.sprintf "op %d %s: precommit %s without a supermajority of prevotes in the view" idx op ob);
+             premise i g "precommit";
+             st.(i) <- store_own e st.(i) Precommit g; precommitted.(i) <- true;
+             push (nat_of_int i, Precommit, g, ridx.(i)); cast Precommit ridx.(i) (nat_of_int i) g.gv_block;
+             tag "precommit"
+           | None -> push_empty (); if ob = "wait" then tag "precommit-wait" else tag "precommit-error")
+        end
+      | 'f' ->
+        let i = int_of_string ("0x" ^ rest) in
+        if fin.(i) then (if ob <> "done" then fail_eq (Printf.sprintf "op %d %s: go=%s model=done" idx op ob))
+        else begin
+          let e = env i in
+          let (r, st') = attempt_to_finalize e st.(i) in
+          let expect = (match r with
+            | Ok None -> "0" | Ok (Some b) -> "1." ^ hex_of_nat b
+            | Err c -> Printf.sprintf "e%x" (int_of_nat c) | _ -> "panic") in
+          let d = det i in
+          if d then (if ob <> expect then fail_eq (Printf.sprintf "op %d %s: go=%s model=%s" idx op ob expect))
+          else tag "order-dependent";
+          if String.length ob > 2 && String.sub ob 0 2 = "1." then begin
+            let b = String.sub ob 2 (String.length ob - 2) in
+            if b = "?" || b = "none" then begin fail_prop (Printf.sprintf "op %d %s: finalised an unknown block" idx op); diverged := true end
+            else begin
+              let b = nat_of_hex b in
+              tag "finalised"; tag (Printf.sprintf "finalised-in-round-%d" ridx.(i));
+              if not (spec_supermajority e st.(i) Precommit b) then
+                fail_prop (Printf.sprintf "op %d %s: finalised %s without a supermajority of precommits in the view" idx op ob);
+              finalised := (b, ridx.(i)) :: !finalised;
+              fin.(i) <- true;
+              st.(i) <- { st.(i) with s_head = b };
+              best_eff.(i) <- best_of i
+            end
+          end else if d then st.(i) <- st'
+        end
+      | 'n' ->
+        let i = int_of_string ("0x" ^ rest) in
+        if not fin.(i) then (if ob <> "wait" then fail_eq (Printf.sprintf "op %d %s: go=%s model=wait" idx op ob))
+        else begin
+          let expect = Printf.sprintf "r%x.h%s" (ridx.(i) + 1) (hex_of_nat st.(i).s_head) in
+          if ob <> expect then begin fail_eq (Printf.sprintf "op %d %s: go=%s model=%s" idx op ob expect); diverged := true end;
+          prev_view.(i) <- Some (spec_votes st.(i) Prevote, spec_votes st.(i) Precommit);
+          st.(i) <- { s_pv = []; s_pc = []; s_pv_eq = []; s_pc_eq = []; s_head = st.(i).s_head };
+          ridx.(i) <- ridx.(i) + 1;
+          best_eff.(i) <- best_of i;
+          prevoted.(i) <- false; precommitted.(i) <- false; fin.(i) <- false;
+          tag "next-round"
+        end
+      | 'd' ->
+        (match String.split_on_char '.' rest with
+         | [i; m] ->
+           let i = int_of_string ("0x" ^ i) and m = int_of_string ("0x" ^ m) in
+           if m >= Array.length !pool || !pool.(m) = None then (if ob <> "nomsg" then begin fail_eq (Printf.sprintf "op %d %s: go=%s model=nomsg" idx op ob); diverged := true end)
+           else begin
+             let (v, sg, g, mr) = (match !pool.(m) with Some x -> x | None -> assert false) in
+             let rk = if mr = ridx.(i) then RoundCurrent else if mr = ridx.(i) + 1 then RoundNext
+                      else if mr = ridx.(i) - 1 then RoundPrevious else RoundOutOfBounds in
+             let msg = { m_round = rk; m_setid_ok = true; m_stage = sg; m_voter = v; m_sig_ok = true; m_vote = g } in
+             let (c, st') = validate_vote_message true (env i) st.(i) msg in
+             let expect = Printf.sprintf "%x" (int_of_nat c) in
+             if ob <> expect then begin fail_eq (Printf.sprintf "op %d %s: go=%s model=%s" idx op ob expect); diverged := true end;
+             st.(i) <- st'; tag ("deliver-" ^ expect)
+           end
+         | _ -> fail "bad op %s" op)
+      | 'b' ->
+        (match String.split_on_char '.' rest with
+         | [j; sg; b; r] ->
+           let b = nat_of_hex b and r = int_of_string ("0x" ^ r) in
+           let sg = if sg = "c" then Precommit else Prevote in
+           push (nat_of_hex j, sg, { gv_block = b; gv_num = drv_n_of_nat (depth t b) }, r);
+           cast sg r (nat_of_hex j) b;
+           tag "byzantine-vote"
+         | _ -> fail "bad op %s" op)
+      | _ -> fail "bad op %s" op
+      end) (List.combine ops obs_l);
+    (* the conclusion of the safety theorem, over all rounds *)
+    let fin_blocks = List.sort_uniq compare (List.map (fun (b, _) -> int_of_nat b) !finalised) in
+    let conflict = List.exists (fun a -> List.exists (fun b ->
+        let a = nat_of_int a and b = nat_of_int b in not (ancb t a b || ancb t b a)) fin_blocks) fin_blocks in
+    if List.length fin_blocks >= 2 then tag "finalised-2-blocks";
+    let rounds_reached = Array.fold_left max 0 ridx in
+    tag (Printf.sprintf "rounds-%d" (rounds_reached + 1));
+    let ws = List.init n (fun _ -> Npos XH) in
+    let guard = later_below t ws (fun v -> int_of_nat v < nh) (Array.to_list pvs) (Array.to_list pcs) in
+    last_multi := Some (t, n, nh, Array.to_list pvs, Array.to_list pcs, guard);
+    if guard then tag "later-vote-below-finalised";
+    if conflict then begin
+      if tolerated then begin
+        fail_prop ("conflicting blocks finalised: " ^ String.concat " " (List.map string_of_int fin_blocks));
+        if guard then finding := "round-advance-ignores-estimate";
+        tag "conflict"
+      end else tag "conflict-with-byz-over-tolerance"
+    end;
+    let tl = Hashtbl.fold (fun k () acc -> k :: acc) tags [] in
+    { prop_ok = !prop; model_eq = !prop && !eq; nontrivial = (fin_blocks <> []); finding = !finding;
+      tags = String.concat "," (List.sort compare tl); detail = !detail }
+  end
+
 let check inp obs =
   match split_ws inp with
   | ["s"; ps; nv; nb; bests; ops] ->
@@ -150,6 +356,28 @@ let check inp obs =
       { prop_ok = !prop; model_eq = !prop && !eq; nontrivial = (fin <> []); finding = "-";
         tags = String.concat "," (List.sort compare tl); detail = !detail }
     end
+  | ["w"; ps; nv; nb; bests; ops] -> check_multi ps nv nb bests ops obs
   | _ -> fail "C22: bad input %s" inp
 
-let () = run_driver check
+(* vm_compute cross-check of the extraction: the guard of the multi-round cases recomputed inside
+   Coq on the votes the implementation cast *)
+let coq inp obs =
+  match split_ws inp with
+  | "w" :: _ ->
+    last_multi := None;
+    let _ = check inp obs in
+    (match !last_multi with
+     | Some (t, n, nh, pvs, pcs, guard) ->
+       let nat_l l = "[" ^ String.concat "; " (List.map (fun x -> string_of_int (int_of_nat x)) l) ^ "]%nat" in
+       let votes l = "[" ^ String.concat "; " (List.map (fun x ->
+           Printf.sprintf "mkVote %d %d 0" (int_of_nat x.vvoter) (int_of_nat x.vblock)) l) ^ "]" in
+       let cast c =
+         (* drop the empty rounds at the end *)
+         let rec trim = function [] :: r -> trim r | l -> l in
+         "[" ^ String.concat "; " (List.map votes (List.rev (trim (List.rev c)))) ^ "]" in
+       Some (Printf.sprintf "Bool.eqb (later_below %s (repeat 1%%N %d) (fun v => Nat.ltb v %d) %s %s) %s"
+               (nat_l t) n nh (cast pvs) (cast pcs) (if guard then "true" else "false"))
+     | None -> None)
+  | _ -> None
+
+let () = run_driver ~coq check
